@@ -11,6 +11,19 @@ fn text_for(construct: &str, depth: usize) -> String {
         "not" => format!("{}true", "!".repeat(depth)),
         "add" => vec!["i1"; depth + 1].join("+"),
         "and" => vec!["true"; depth + 1].join(" and "),
+        // a chain of every other binary operator (each has its own arm in the parser's actions, the printer and the evaluator)
+        "chain-eq" => vec!["i1"; depth + 1].join(" == "),
+        "chain-neq" => vec!["i1"; depth + 1].join(" != "),
+        "chain-gt" => vec!["i1"; depth + 1].join(" > "),
+        "chain-lte" => vec!["i1"; depth + 1].join(" <= "),
+        "chain-sub" => vec!["i1"; depth + 1].join(" - "),
+        "chain-mult" => vec!["i1"; depth + 1].join(" * "),
+        "chain-div" => vec!["i1"; depth + 1].join(" / "),
+        "chain-rem" => vec!["i7"; depth + 1].join(" % "),
+        "chain-or" => vec!["false"; depth + 1].join(" or "),
+        "chain-bitand" => vec!["i1"; depth + 1].join(" & "),
+        "chain-bitor" => vec!["i1"; depth + 1].join(" | "),
+        "chain-bitxor" => vec!["i1"; depth + 1].join(" ^ "),
         "call" => format!("{}i1{}", "f(".repeat(depth), ")".repeat(depth)),
         "builtin" => format!("{}i1{}", "int(".repeat(depth), ")".repeat(depth)),
         "list" => format!("{}i1{}", "[".repeat(depth), "]".repeat(depth)),
